@@ -32,13 +32,66 @@ def same_nt(a, b):
         return a == b
 
 
+def snap_traced(x, _memo=None):
+    """Snapshot taken under the tracer: symbolic leaves stay as they are, so comparing two such snapshots asks the
+    solver about the leaves (used only when the untraced comparison says 'different')."""
+    if _memo is None:
+        _memo = {}
+    if isinstance(x, ATOMS):
+        return x
+    if isinstance(x, enum.Enum):
+        return ("enum", type(x).__name__, x.name)
+    if inspect.isclass(x):
+        return ("class", x.__module__, x.__qualname__)
+    if inspect.isfunction(x) or inspect.ismethod(x) or inspect.isbuiltin(x):
+        return ("fn", getattr(x, "__qualname__", repr(x)))
+    k = id(x)
+    if k in _memo:
+        return ("ref", _memo[k])
+    _memo[k] = len(_memo)
+    if isinstance(x, (list, tuple)):
+        return (type(x).__name__,) + tuple(snap_traced(v, _memo) for v in x)
+    if isinstance(x, (set, frozenset)):
+        items = [snap_traced(v, _memo) for v in x]
+        try:
+            items.sort(key=repr)
+        except Exception:
+            pass
+        return ("set",) + tuple(items)
+    if isinstance(x, dict):
+        return ("dict",) + tuple((snap_traced(a, _memo), snap_traced(b, _memo)) for a, b in x.items())
+    if isinstance(x, slice):
+        return ("slice", x.start, x.stop, x.step)
+    d = getattr(x, "__dict__", None)
+    if d is None:
+        return ("obj", type(x).__name__, repr(x))
+    return ("obj", type(x).__module__, type(x).__qualname__) + tuple(
+        (name, snap_traced(v, _memo)) for name, v in sorted(d.items())
+    )
+
+
+def same_structure(a, b):
+    """a and b (objects) have equal snapshots: fast untraced comparison first, solver-backed comparison on mismatch."""
+    if same_nt(snap_nt(a), snap_nt(b)):
+        return True
+    return snap_traced(a) == snap_traced(b)
+
+
+def _kind(x):
+    n = type(x).__name__
+    for k in ("Str", "Int", "Bool", "Float"):
+        if k in n:
+            return k.lower()
+    return n
+
+
 def snap(x, _memo=None, _depth=0):
     if _memo is None:
         _memo = {}
     if isinstance(x, ATOMS):
         return x
     if type(x).__module__.startswith("crosshair"):
-        return ("sym", type(x).__name__)
+        return ("sym", _kind(x))
     if isinstance(x, enum.Enum):
         return ("enum", type(x).__name__, x.name)
     if inspect.isclass(x):
